@@ -6,6 +6,7 @@ import Sentinel.DriverC10
 import Sentinel.DriverC12
 import Sentinel.DriverC17
 import Sentinel.DriverC18
+import Sentinel.DriverC20
 /-! Generic driver: reads a trace (`case <id>` headers, `<op> -> <obs>` lines) from stdin, checks
 every case with the property's `checkCase`, prints one line per case. -/
 namespace Sentinel
@@ -19,6 +20,7 @@ def checkerFor (prop : String) : Option (List (String × String) → Verdict) :=
   | "C13" => some DriverC13.checkCase
   | "C17" => some DriverC17.checkCase
   | "C18" => some DriverC18.checkCase
+  | "C20" => some DriverC20.checkCase
   | _ => none
 
 def renderVerdict (id : String) (v : Verdict) : String :=
